@@ -1,0 +1,40 @@
+//go:build verif
+
+// Contracts for the verification framework in /verif (govc).
+//
+// This file contains no executable code.  It is compiled only with the build
+// tag "verif" and even then contributes nothing but comments: every line that
+// matters starts with "//@" and is read by /verif/govc, which generates
+// verification conditions from the go/ssa form of the functions named here
+// and discharges them with SMT solvers.  Contracts are keyed by function name
+// and loop ordinal (loops are numbered in source order within a function).
+
+package log
+
+// ---- C09: string escaping --------------------------------------------------------------------
+
+//@ func tryAddRuneSelf
+//@   requires buf != nil
+//@   modifies buf.out
+//@   ensures[C09:result] result == (b < 128)
+//@   ensures[C09:frag]  result ==> Frag(old(buf.out), buf.out, b)
+//@   ensures[C09:unchanged] !result ==> buf.out == old(buf.out)
+//@   replay b = b
+
+//@ func tryAddRuneError
+//@   requires buf != nil
+//@   modifies buf.out
+//@   ensures[C09:result] result == (r == 65533 && size == 1)
+//@   ensures[C09:frag]  result ==> Frag(old(buf.out), buf.out, 65533)
+//@   ensures[C09:unchanged] !result ==> buf.out == old(buf.out)
+//@   replay r = r; size = size
+
+//@ func WriteLogString
+//@   requires buf != nil
+//@   modifies buf.out
+//@   ensures[C09:ext] Ext(old(buf.out), buf.out, RP(s, len(s)))
+//@   loop 1 invariant[C09:range] 0 <= i && i <= len(s)
+//@   loop 1 invariant[C09:boundary] bnd(s, i)
+//@   loop 1 invariant[C09:ext] Ext(old(buf.out), buf.out, RP(s, i))
+//@   loop 1 decreases[C09] len(s) - i
+//@   replay s = s
